@@ -11,7 +11,7 @@ import (
 func init() {
 	register(&PropRule{
 		ID:    "C42",
-		Roots: []string{"./gateway/dataplane", "./gateway/routing"},
+		Roots: []string{"./gateway/dataplane", "./gateway/routing", "./gateway/pktcls"},
 		Explain: "Decides the structural clauses of gateway routing. (R1) RoutingTable.route keeps a running (session, " +
 			"mask length): an entry replaces it exactly when its prefix Contains the destination and its mask " +
 			"length is NOT SMALLER than the best so far (initially 0, so a /0 default route is eligible); both " +
@@ -80,6 +80,7 @@ func init() {
 }
 
 func runC42(c *Ctx) {
+	ipv4PredicateMeaning(c, "E2-ipv4-predicate-meaning")
 	c42PolicyText(c)
 	dT := "gateway/dataplane."
 	if v := c.View("(*" + dT + "RoutingTable).route"); v != nil {
